@@ -104,6 +104,14 @@ let rec sexp_of_sval (v : sval) : Sexp.t =
   | VR x -> tagged "R" [ sexp_of_sval x ]
   | VP (a, b) -> tagged "P" [ sexp_of_sval a; sexp_of_sval b ]
 
+let rec sty_of (s : Sexp.t) : sty =
+  match s with
+  | Atom "1" -> SUnit
+  | _ -> (match tag s with
+      | "+", [ a; b ] -> SSum (sty_of a, sty_of b)
+      | "*", [ a; b ] -> SProd (sty_of a, sty_of b)
+      | _ -> raise (Parse_error "bad sty"))
+
 let rec sval_of (s : Sexp.t) : sval =
   match tag s with
   | "u", [] -> VU
